@@ -170,7 +170,7 @@ class DlMalformed(Stream):
         return L.harness_ok(c, o)
 
 
-class C10(Check):
+class C10(L.ShrinkMixin, Check):
     pid = "C10"
     prop_files = ["Properties/C10.v"]
     streams = [DlHistories(), DlMalformed()]
